@@ -15,6 +15,7 @@ package switchr
 //@   ensures expired-frames-are-not-sent [C10]: old(f.data[1]) <= 1 ==> result != nil
 //@   modifies f.data[1:3]
 //@   ensures ttl-never-increases [C10]: f.data[1] <= old(f.data[1])
+//@   ensures frames-with-ttl-left-are-sent [C09,C10]: old(f.data[1]) >= 2 ==> called("peering.Link.Send") || called("peering.Link.SendPriority")
 
 // ttl bound: a frame that has crossed k links still has TTL >= 1, and lost exactly 1 per link: k <= TTL0 - 1 (31 for the initial 32)
 //@ lemma ttl-bounds-link-crossings: forall t0 uint8, k uint8 :: (t0 >= k && t0 - k >= 1) ==> k <= t0 - 1
